@@ -74,10 +74,31 @@ class LowerDimExpr:
 
     def _convert_op(self, name: str, operands: list[ir.Value]) -> ir.Value:
         if name == "floordiv":
+            # ONNX integer Div truncates toward zero while dimension arithmetic
+            # is floor division. Mod (fmod=0) takes the divisor's sign, so
+            # (a - a mod b) is an exact multiple of b and Div becomes exact.
+            remainder = cast(
+                ir.Value,
+                self.ctx.builder.Mod(
+                    operands[0],
+                    operands[1],
+                    _outputs=[self.ctx.fresh_name("dimexpr_floordiv_rem")],
+                ),
+            )
+            self._set_metadata(remainder)
+            exact = cast(
+                ir.Value,
+                self.ctx.builder.Sub(
+                    operands[0],
+                    remainder,
+                    _outputs=[self.ctx.fresh_name("dimexpr_floordiv_num")],
+                ),
+            )
+            self._set_metadata(exact)
             result = cast(
                 ir.Value,
                 self.ctx.builder.Div(
-                    operands[0],
+                    exact,
                     operands[1],
                     _outputs=[self.ctx.fresh_name("dimexpr_div")],
                 ),
